@@ -12,7 +12,12 @@ def rstr(rng, maxlen=8):
     if r < 0.35:
         return rng.choice(TRICKY)
     n = rng.randrange(0, maxlen + 1)
-    if r < 0.6:
+    if r < 0.45:
+        # strings that begin or end with ASCII whitespace / control bytes (nothing may trim them)
+        core = bytes(rng.choice(b"ab:e1") for _ in range(n))
+        ws = lambda: bytes(rng.choice(b" \t\n\r\x0b\x0c\x00") for _ in range(rng.choice([1, 1, 2])))
+        return rng.choice([core + ws(), ws() + core, ws() + core + ws(), ws()])
+    if r < 0.65:
         return bytes(rng.choice(b"0123456789:eild-ab") for _ in range(n))
     return bytes(rng.randrange(256) for _ in range(n))
 
@@ -112,7 +117,19 @@ def impl_result_to_coq(s):
     raise ValueError("bad result " + s[:60])
 
 
+HUGE_LENGTHS = [b"9999999999999999999", b"18446744073709551615", b"9223372036854775808", b"18446744073709551616",
+                b"99999999999999999999999"]
+
+
 def mutate(rng, doc):
+    if rng.random() < 0.1:
+        # a string header announcing far more bytes than follow (the length must be checked against the input
+        # before anything is sized by it)
+        import re
+        ms = list(re.finditer(rb"\d+:", doc))
+        if ms:
+            m = rng.choice(ms)
+            return doc[:m.start()] + rng.choice(HUGE_LENGTHS) + doc[m.end() - 1:]
     b = bytearray(doc)
     r = rng.random()
     if r < 0.35 and b:
